@@ -936,12 +936,12 @@ package core
 // state after the reset (a node that was failed before is not still seen as failed).
 // (the call is the event; what is verified of the body: the node's cached state is the state
 // computed from the metadata just reloaded)
-//@ func core.Node.loadMetadata property C05
+//@ func core.Node.loadMetadata property C05 C06
 //@   effect nodeloads self
 //@   requires self != nil
 //@   ensures @stateloaded self.state == fn(core.Node.getState, self)
 
-//@ func core.Node.reset property C05
+//@ func core.Node.reset property C05 C06
 //@   requires self != nil && self.top != nil && self.top.rt != nil && self.top.rt.Config != nil
 //@   ensures @reloaded isnil(result) ==> ghost(nodeloads)[self] > old(ghost(nodeloads)[self])
 //@   loop 1 invariant ghost(nodeloads)[self] >= old(ghost(nodeloads)[self])
@@ -1064,11 +1064,11 @@ package core
 // null; each entry is the projection of that element at the type with one array dimension
 // fewer (the invariant names the entry just appended: entries appended earlier sit in an
 // array the recursive call does not own, and its inferred frame is too coarse to carry them).
-//@ func syntax.TypeLookup.GetArray property C01 C17
+//@ func syntax.TypeLookup.GetArray property C01 C17 C07
 //@   trusted
 //@   pure
 //@   opt deterministic on
-//@ func core.resolvePath property C01 C17
+//@ func core.resolvePath property C01 C17 C07
 //@   opt deterministic on
 //@   let isnull = fn("bytes.Equal", b, core.nullBytes)
 //@   ensures @null isnull ==> isnil(result.0) && isnil(result.1)
